@@ -1,1 +1,78 @@
-//! Helpers of group 'unix' (see GUIDE.md).
+//! Helpers of group 'unix' (see GUIDE.md): extra history operations used by C48 (domain level
+//! upgrade) on top of the shared op language: memberships in built-in groups, credentials, ssh keys.
+use crate::ops::{self, Node, Op, Ref};
+use kanidm_lib_crypto::CryptoPolicy;
+use kanidmd_lib::credential::Credential;
+use kanidmd_lib::modify::{Modify, ModifyList};
+use kanidmd_lib::prelude::*;
+use kanidmd_lib::value::Value;
+use serde::{Deserialize, Serialize};
+use time::OffsetDateTime;
+
+/// Built-in groups that user content may be added to.
+pub const BUILTIN_GROUPS: [(Uuid, &str); 8] = [
+    (UUID_IDM_ADMINS, "idm_admins"),
+    (UUID_SYSTEM_ADMINS, "system_admins"),
+    (UUID_IDM_PEOPLE_ADMINS, "idm_people_admins"),
+    (UUID_IDM_GROUP_ADMINS, "idm_group_admins"),
+    (UUID_IDM_RADIUS_SERVERS, "idm_radius_servers"),
+    (UUID_IDM_SERVICE_DESK, "idm_service_desk"),
+    (UUID_IDM_UNIX_ADMINS, "idm_unix_admins"),
+    (UUID_IDM_HIGH_PRIVILEGE, "idm_high_privilege"),
+];
+
+pub const SSH_KEYS: [&str; 2] = [
+    "ssh-ed25519 AAAAC3NzaC1lZDI1NTE5AAAAIAeGW1P6Pc2rPq0XqbRaDKBcXZUPRklo0L1EyR30CwoP william@amethyst",
+    "ecdsa-sha2-nistp256 AAAAE2VjZHNhLXNoYTItbmlzdHAyNTYAAAAIbmlzdHAyNTYAAABBBGyIY7o3BtOzRiJ9vvjj96bRImwmyy5GvFSIUPlK00HitiAWGhiO1jGZKmK7220Oe4rqU3uAwA00a0758UODs+0= william@amethyst",
+];
+
+#[derive(Debug, Clone, PartialEq, Eq, Hash, Serialize, Deserialize)]
+pub enum XOp {
+    Base(Op),
+    /// add `m` to built-in group number `b`
+    BuiltinMember { b: u8, m: Ref },
+    /// set a primary password credential on a person
+    SetPassword { t: Ref, pw: u8 },
+    /// add an ssh public key
+    AddSshKey { t: Ref, k: u8 },
+}
+
+fn live(u: Uuid) -> Filter<FilterInvalid> {
+    Filter::new_ignore_hidden(f_eq(Attribute::Uuid, PartialValue::Uuid(u)))
+}
+
+pub async fn apply(node: &mut Node, op: &XOp) -> Result<(), OperationError> {
+    let mods = match op {
+        XOp::Base(op) => return ops::apply(node, op).await,
+        XOp::BuiltinMember { b, m } => {
+            let (g, _) = BUILTIN_GROUPS[*b as usize % BUILTIN_GROUPS.len()];
+            (g, vec![Modify::Present(Attribute::Member, Value::Refer(m.uuid()))])
+        }
+        XOp::SetPassword { t, pw } => {
+            let cred = Credential::new_password_only(
+                &CryptoPolicy::minimum(),
+                ["correct horse battery staple", "Tr0ub4dor&3-xkcd-936", "eicieY7ahchaoCh0eeTa"][*pw as usize % 3],
+                OffsetDateTime::UNIX_EPOCH + node.now(),
+            )?;
+            (
+                t.uuid(),
+                vec![
+                    Modify::Purged(Attribute::PrimaryCredential),
+                    Modify::Present(Attribute::PrimaryCredential, Value::new_credential("primary", cred)),
+                ],
+            )
+        }
+        XOp::AddSshKey { t, k } => {
+            let key = SSH_KEYS[*k as usize % SSH_KEYS.len()];
+            (
+                t.uuid(),
+                vec![Modify::Present(Attribute::SshPublicKey, Value::new_sshkey_str(&format!("k{k}"), key)?)],
+            )
+        }
+    };
+    let mut w = node.qs.write(node.now()).await?;
+    w.internal_modify(&live(mods.0), &ModifyList::new_list(mods.1))?;
+    w.commit()?;
+    node.clock += 1;
+    Ok(())
+}
